@@ -60,6 +60,7 @@ structure Flags where
   omegaNeedsQuantity : Bool  -- the omega-domain cases of `__compat_add__` sit under a quantity test
   canonFoldsHertz : Bool     -- `simplify_units` writes Hz as 1/s in units that have no named equivalent
   canonicalOnlyPrinting : Bool  -- every read of `state.canonical_units` sits in a `_pexpr` printing property
+  recipKeepsDomain : Bool    -- the mixins' `__rtruediv__` build the reciprocal with `self._class_by_quantity(...)`
   deriving DecidableEq, Repr
 
 structure Tables where
@@ -246,13 +247,17 @@ def symDomain : Domain → Domain
   | d => d
 
 /-- `ImpedanceMixin/AdmittanceMixin.__rtruediv__` for a constant numerator: builds the
-    reciprocal immittance by value (`admittance(x.expr / self.expr)`), class defaults.
-    `impedance(expr)` chooses the class from the expression: an unchanging value gives a
-    constant-domain class, otherwise the domain of the variable it depends on; `nu` are the
-    numerator's units -/
+    reciprocal immittance; `nu` are the numerator's units.  (Formerly by value,
+    `admittance(x.expr / self.expr)`: `impedance(expr)` chooses the class from the expression -- an
+    unchanging value gives a constant-domain class, otherwise the domain of the variable it depends
+    on; kept as the `recipKeepsDomain = false` branch.) -/
 def recipImmittance (nu : U) (a : Opd) : Outcome :=
   let q := if a.q = .impedance then Quantity.admittance else .impedance
-  let d := if a.unch then exprmapM T q .constant else exprmapM T q (symDomain a.dom)
+  -- current code: `self._class_by_quantity(q)(value, **self.assumptions)`: the class of the reciprocal
+  -- quantity in the operand's OWN domain; before that fix: `admittance(value)` / `impedance(value)`,
+  -- which chose the class from the expression
+  let d := if T.flags.recipKeepsDomain then classByQuantity T a.dom q a.dom
+           else if a.unch then exprmapM T q .constant else exprmapM T q (symDomain a.dom)
   .ok d q (if T.flags.recipSetsUnits then nu - a.units else defaultUnits T d q)
 
 /-- Python tries `x.__rtruediv__(a)` first when type(x) is a proper subclass of type(a) that
